@@ -193,7 +193,7 @@ func errClass(msg string) string {
 	switch {
 	case msg == "":
 		return "ok"
-	case strings.Contains(m, "no files returned from query parse"):
+	case strings.Contains(m, "no files returned from query parse"), strings.Contains(m, "not in catalog"):
 		return "err:nofiles"
 	case strings.Contains(m, "unable to match data columns"):
 		return "err:colmismatch"
